@@ -28,7 +28,7 @@ def maildir_spec(path, subjects):
 
 subject_st = st.text("abcdefgh XYZ0123", min_size=1, max_size=12).map(str.strip).filter(bool)
 
-SCRIPT = "#!/bin/sh\necho \"script output\"\n"
+SCRIPT = "#!/bin/sh\necho \"script output search=[$SEARCHREQUEST] selector=[$SELECTOR]\"\n"
 
 
 def gz_text(content):
@@ -36,7 +36,7 @@ def gz_text(content):
 
 
 @st.composite
-def dir_items(draw, depth, full, gopher_ok, toplevel, max_items=5, kinds=None):
+def dir_items(draw, depth, full, gopher_ok, toplevel, max_items=5, kinds=None, longnames=False):
     """Returns list of (name, item) with item = dict(kind=..., ...)"""
     kinds = kinds or ["txt", "txt", "html", "bin", "dir", "dir", "map", "mbox", "maildir"] + (
         ["zip", "gz", "exec"] if full else [])
@@ -47,7 +47,7 @@ def dir_items(draw, depth, full, gopher_ok, toplevel, max_items=5, kinds=None):
     used = set()
     for _ in range(n):
         kind = draw(st.sampled_from(kinds))
-        name = draw(gen.names(gopher_ok=gopher_ok, toplevel=toplevel, full=full))
+        name = draw(gen.names(gopher_ok=gopher_ok, toplevel=toplevel, full=full, long_ratio=1 if longnames else 0))
         if kind == "txt":
             name = name if "." in name else name + draw(st.sampled_from(["", ".txt"]))
             item = {"kind": "txt", "content": draw(gen.text_content)}
@@ -60,7 +60,7 @@ def dir_items(draw, depth, full, gopher_ok, toplevel, max_items=5, kinds=None):
             name = name.split(".")[0] + draw(st.sampled_from([".gif", ".dat", ".jpg"]))
             item = {"kind": "bin", "content": draw(gen.binary_content)}
         elif kind == "dir":
-            item = {"kind": "dir", "items": draw(dir_items(depth - 1, full, gopher_ok, False, 3, kinds))}
+            item = {"kind": "dir", "items": draw(dir_items(depth - 1, full, gopher_ok, False, 3, kinds, longnames))}
         elif kind == "map":
             # (names listed in a gophermap cannot contain TAB/CR/LF whatever the protocol: TAB separates its fields)
             item = {"kind": "map", "items": draw(dir_items(depth - 1, full, True, False, 3,
@@ -115,8 +115,8 @@ def reserve_virtual_separators(items):
     return has
 
 
-def site(full=False, gopher_ok=True, depth=2, max_items=5, virtual_seps=False):
-    s = dir_items(depth, full, gopher_ok, True, max_items)
+def site(full=False, gopher_ok=True, depth=2, max_items=5, virtual_seps=False, longnames=False):
+    s = dir_items(depth, full, gopher_ok, True, max_items, None, longnames)
     if virtual_seps:
         return s
     def fix(items):
@@ -194,5 +194,5 @@ def objects(items, base=""):
         elif k == "gz":
             out.append({"sel": sel, "kind": "doc", "what": "gz", "content": it["content"]})
         elif k == "exec":
-            out.append({"sel": sel, "kind": "doc", "what": "exec", "content": "script output\n"})
+            out.append({"sel": sel, "kind": "doc", "what": "exec", "content": None})
     return out
